@@ -913,12 +913,30 @@ def _execute_ts(trace, res, solver, kw, cps):
     foreign = False
     desync = False
     last_step_clean = True
+    after_divergence = False
     for pos, t in enumerate(steps):
         last_step_clean = True
         for c in trace["const"]:
             for i, nm in zip(c["element_index"], c["profile"]):
                 if nm in trace["profiles"]:
                     model.v[(c["net"], c["element"], i, c["variable"])] = trace["profiles"][nm][t] * c["scale_factor"]
+        if after_divergence:
+            # What the coupling controllers wrote in the diverged step is still in the nets when this step starts, and
+            # a level that is evaluated before they write again meets it.  If those left-over values alone make a member
+            # infeasible, this step cannot be calculated either: a consequence of the diverged step that the loop does
+            # not contain (recorded as a finding); the model stops judging this run.
+            pre = _twin_nets(trace, model, kw, solver)
+            if not all(v[1] == "ok" for v in pre.values()):
+                res.count("probe:step-poisoned-by-diverged-step")
+                flagged_now = False
+                for nn, ow in ows.items():
+                    pf = ow.output.get("Parameters")
+                    if pf is not None and "powerflow_failed" in pf and t in pf.index and bool(pf["powerflow_failed"].loc[t]):
+                        flagged_now = True
+                if flagged_now:
+                    res.violate("C13", "C13/later-step-fails-on-values-left-by-diverged-step@multinet,cod=True", "step %d" % t, pos)
+                return
+            after_divergence = False
         model.apply_couplings(cps)
         twins = _twin_nets(trace, model, kw, solver)
         res.sim_steps += 1
@@ -984,6 +1002,7 @@ def _execute_ts(trace, res, solver, kw, cps):
         if not any(flagged.values()):
             res.violate("C13", "C13/diverged-step-not-reported@multinet,cod=True", "step %d" % t, pos)
             res.violate("C20", "C20/converged-flag:diverged-member-not-reported@timeseries-step", "step %d" % t, pos)
+        after_divergence = True
         # in a failed step the controllers may or may not have acted before the calculation failed:
         # targets of independent couplings are rewritten in the next step, dependent chains may have
         # read a stale value - the model cannot follow those, stop judging
